@@ -1611,6 +1611,18 @@ class H2Connection:
         events = self.state_machine.process_input(
             ConnectionInputs.RECV_HEADERS
         )
+
+        # A server opens streams with PUSH_PROMISE only: HEADERS on a stream
+        # the server never promised cannot open it.
+        if (self.config.client_side and
+                frame.stream_id not in self.streams and
+                not self._stream_id_is_outbound(frame.stream_id) and
+                frame.stream_id > self.highest_inbound_stream_id):
+            raise ProtocolError(
+                "Received HEADERS on stream %d, which was never promised" %
+                frame.stream_id
+            )
+
         stream = self._get_or_create_stream(
             frame.stream_id, AllowedStreamIDs(not self.config.client_side)
         )
